@@ -405,6 +405,13 @@ def explore_subtree(execute, cfg, cfg_idx, root, budget, stats, limit=None, fron
         res = execute(ch, cfg)
         stats.add(cfg_idx, len(p), ch, res)
         done += 1
+        if res.violations and any("execution-never-ends" in v[1] or "ExecTimeout" in v[1] for v in res.violations):
+            # every such execution costs seconds of watchdog time: after three of them in this process the rest of this
+            # configuration is left unexplored (a violation is on record, the run is not exhaustive and exits 1 anyway)
+            _HANGS[cfg_idx] = _HANGS.get(cfg_idx, 0) + 1
+        if _HANGS.get(cfg_idx, 0) >= 3:
+            stats.capped = True
+            return
         if len(stats.samples) < 3 and res.nontrivial:
             stats.samples.append((cfg_idx, _trim(ch.choices)))
         cs = ch.choices
@@ -419,6 +426,7 @@ def explore_subtree(execute, cfg, cfg_idx, root, budget, stats, limit=None, fron
 
 # ---- worker pool -------------------------------------------------------------------------
 _W = {}
+_HANGS = {}      # cfg_idx -> executions ended by the watchdog in this process
 
 
 def _winit(execute, cfgs, budget):
